@@ -14,11 +14,17 @@ Cases
       across files, a history of explicit loads (from file / from string) and the call
       `model_export_to_file(f, model, repo)` with model = one of the loaded models or None and
       repo = None / [] / a list of models / the (possibly empty) `all_models` of a model or
-      of the metamodel; through the file object, the file API or the `any -> dot` generator.
+      of the metamodel; through the file object, the file API or the `any -> dot` generator;
+      *user classes* (`classes=[...]`) for any of the generated classes with one of the Python
+      protocols of `UCLS` (`__len__`/`__iter__`, `__bool__`, `__eq__` with / without `__hash__`):
+      falsy, all-equal and unhashable objects in every position (root, value of a single-valued
+      containment / reference, item of a containment / mixed / reference list), also
+      systematically (`protocol_sweep`); falsy primitive values (0, 0.0, "", False, []).
       (cases with the older field "mode" are read as the corresponding situation.)
   kind "mm": a generated grammar (common / abstract / match rules, hostile string and
       regex matches, base types, OBJECT, references, all multiplicities) exported with
-      the DOT or the PlantUML renderer (file object, file API, generators).
+      the DOT or the PlantUML renderer (file object, file API, generators), optionally with user
+      classes for common rules.
   kind "escape": `dot_escape` / `dot_repr` on one hostile string.
   kind "args": the argument checks of `model_export_to_file` (malformed stream).
 
@@ -1126,9 +1132,16 @@ def situation_sweep():
                     if valid_case(c):
                         out.append(c)
                     if call is calls[0] and not mm_global and hist in ("Astr", "Afile"):
-                        c = dict(copy.deepcopy(c), wrapper=True, falsy="len" if hist == "Astr" else "bool")
-                        if valid_case(c):
-                            out.append(c)
+                        c2 = dict(copy.deepcopy(c), wrapper=True, falsy="len" if hist == "Astr" else "bool")
+                        if valid_case(c2):
+                            out.append(c2)
+                    if call is calls[0]:
+                        # the root objects are instances of a user class and all compare equal (hashable or
+                        # not): model A must not be taken for model B anywhere
+                        for how in ("eq", "unhash"):
+                            c2 = dict(copy.deepcopy(c), ucls=[how])
+                            if valid_case(c2):
+                                out.append(c2)
     return out
 
 
@@ -1361,6 +1374,8 @@ class Prop(Check):
                 "(Gen/DotExport.lean); hand-modelled (tie X, exact text): model_export_to_file incl. the argument checks and the "
                 "choice of the exported models from model / repo / model._tx_model_repository.all_models (planArgs; the "
                 "three are dumped from the live objects before the call), _export recursion, processed set, subgraph handling; metamodel_export_tofile with DotRenderer and PlantUmlRenderer; "
+                "an object has no truth value, equality or hash in the model — the code consults only `is None`, id() and type() — "
+                "and the exact text comparison exposes any dependence on them (user classes with __len__ / __bool__ / __eq__ are generated); "
                 "inputs taken as data: _tx_attrs meta data, attribute values, id(), get_children, get_unified_classes, "
                 "dot_match_str, html.escape (modelled, checked by the text comparison); not exhibited: file-system "
                 "errors, set iteration order of PlantUML legend rows (compared sorted)")
@@ -1369,6 +1384,8 @@ class Prop(Check):
         "Graphviz >= 2.30 scanner: a backslash inside a quoted string protects the next character",
         "record-label grammar as in Graphviz lib/common/shapes.c parse_reclbl",
         "str() of int / float / bool contains no character that is special in DOT strings or record labels",
+        "user classes keep the name of their rule and accept the attributes as keyword arguments (textX contract); a user class "
+        "that subclasses a primitive type (str, int, ...) or a list is not generated",
         "repo is None or a sized iterable of models (list, ModelRepository); an empty iterator (truthy) is not generated",
         "the `any -> dot` generator is called with models loaded from a file (it derives the output name from the file name)",
     ]
